@@ -12,19 +12,22 @@ capacity, lateness_weight [B,1].  Two capacity layouts (field capfmt):
   "env"  capacity [B,nd]  -- what MDCPDPEnv._step indexes (`num_depot = td["capacity"].shape[-1]`)
 With one depot the two coincide.
 
-Field exec:
+Field exec (both kept as coverage; they must behave identically):
   "batch"  the rows of a batch are stepped by ONE real env.step call (what every user gets)
   "row"    the same real env, but every row is stepped as its own batch of one (class _Rowwise).
-           MDCPDPEnv._step leaks the step length of batch row 0 into every row (finding), so on
-           "batch" instances every accumulated length is polluted; the "row" instances show what the
-           per-instance logic does on its own (and give mutants of that logic a clean background).
+           Introduced when MDCPDPEnv._step leaked the step length of batch row 0 into every row
+           (fixed by "fix: MDCPDP accumulates each instance's own step length"); since that fix the
+           model compares lengths and arrival times in both modes.
 
 Three adapters share the module:
   MDCPDP      one depot, or several depots in the "env" layout with equal capacities
   MDCPDPGen   several depots in the generator's own layout (capacity [B,1])
   MDCPDPHet   several depots, "env" layout, different capacities per vehicle
-(the last two carry their own `name`, so that the C01 / C05 violations they produce form their own
-violation classes and do not hide anything in the configurations whose masks are healthy).
+(the last two carry their own `name`, i.e. their own violation classes.  MDCPDPGen exhibits the OPEN
+defect `num_depot = td["capacity"].shape[-1]`; MDCPDP and MDCPDPHet are clean since the three fixes
+"MDCPDP accumulates each instance's own step length", "MDCPDP tracks the depot of the vehicle that is
+currently driving", "MDCPDP charges the last vehicle's way home in closed mode and nothing after
+finishing").
 """
 import torch
 from tensordict import TensorDict
@@ -68,10 +71,6 @@ class MDCPDP(Adapter):
     pad_steps = 2
     properties = ("C01", "C02", "C03", "C04", "C05")
     flavour = "main"
-    # NOTE the Solo MODEL itself fails invariant C03 wherever the code's reward is not the objective
-    # (closed routes, several used vehicles ...): reported by the pipeline as a model-invariant note
-    # next to the real-code C03 verdicts.
-
     def violation_class(self, inst, monitor):
         return "nd%d/%s/%s/%s/%s" % (inst["nd"], inst["capfmt"], "open" if inst["open"] else "close",
                                      inst["rmode"], inst["exec"])
@@ -179,13 +178,17 @@ class MDCPDPGen(MDCPDP):
     name = tag = "mdcpdp_gen"      # own name = own violation classes
     flavour = "gen"
 
+    def violation_class(self, inst, monitor):
+        # one stable class: every violation here is the open defect num_depot = capacity.shape[-1]
+        return "capacity-B1-several-depots"
+
     def shapes(self, tier):
         if tier == "quick":
             return [(2, 1, [[1, 1]], "gen"), (2, 2, [[1, 1]], "gen")]
         return [(2, 1, [[1, 1]], "gen"), (2, 2, [[1, 1], [2, 2]], "gen"), (3, 1, [[1, 1, 1]], "gen")]
 
     def modes(self, tier, nd, P):
-        return [(1, "minsum", 4, "L2", "row"), (0, "minsum", 4, "L1", "row")]
+        return [(1, "minsum", 4, "L2", "row"), (0, "minsum", 4, "L1", "row"), (1, "minsum", 4, "L2", "batch")]
 
 
 class MDCPDPHet(MDCPDP):
@@ -194,10 +197,12 @@ class MDCPDPHet(MDCPDP):
     flavour = "het"
 
     def shapes(self, tier):
-        return [(2, 2, [[1, 2], [2, 1]], "env")]
+        if tier == "quick":
+            return [(2, 2, [[1, 2], [2, 1]], "env")]
+        return [(2, 2, [[1, 2], [2, 1]], "env"), (3, 1, [[1, 2, 1]], "env"), (2, 1, [[2, 1]], "env")]
 
     def modes(self, tier, nd, P):
-        return [(1, "minsum", 4, "L2", "row"), (0, "minsum", 4, "L1", "row")]
+        return [(1, "minsum", 4, "L2", "row"), (0, "minmax", 4, "L1", "batch"), (0, "lateness", 1, "L2", "batch")]
 
 
 def _units(x, g):
